@@ -41,6 +41,23 @@ def handle : List String → String
       | some (es, c) => ",".intercalate (es.map showEv) ++ " next=" ++ toString c.conn.counter
       | none => "panic"
     | _, _ => "bad-op"
+  | ["c13.hello", start, rs, body] =>
+    let rs' := if rs == "~" then some none else rs.toNat?.map some
+    let body' : Option (Option (List Char)) :=
+      if body == "n" then some none
+      else if body.startsWith "s" then (parseCodepoints (body.drop 1).toString).map some
+      else none
+    match start.toNat?, rs', body' with
+    | some st, some rs', some body' =>
+      match sendHello ⟨st⟩ ⟨rs', body'⟩ with
+      | none => "panic"
+      | some (s, r, c) =>
+        let rtxt := match r with
+          | .name n => "name=" ++ optStr (some n)
+          | .notTheAnswer => "not-the-answer"
+          | .badBody => "bad-body"
+        s!"serial={s} {rtxt} next={c.counter}"
+    | _, _, _ => "bad-op"
   | ["c13.reply", kind, serial, sender] =>
     let ser := if serial == "~" then some none else serial.toNat?.map some
     let snd := if sender == "~" then some none else (parseCodepoints sender).map some
